@@ -9,7 +9,7 @@ all simulators are assembled from the same parts in the same order (R-C01-agree)
 """
 import ast
 
-from sa.astutil import norm, guards_of, walk_no_nested, enclosing
+from sa.astutil import inline_locals, norm, guards_of, walk_no_nested, enclosing
 from sa.errors import AnalysisError
 from sa.report import RuleResult
 from rules.c02 import rule_kahn, rule_pairing, rule_netblk
@@ -143,7 +143,7 @@ def rule_agree(repo):
         gens = [c for c in ast.walk(f) if isinstance(c, ast.Call) and norm(c.func).endswith('gen_tick_function')]
         ok = len(gens) == 1
         if ok:
-            a = norm(gens[0].args[0])
+            a = norm(inline_locals(gens[0].args[0], gens[0]))      # a named local holding the list reads as the list
             ok = a in ('top._sched.update_schedule', '[top._sim.check_top_level_inports] + top._sched.update_schedule',
                        'top._sched.update_schedule + [top._sim.check_top_level_inports]')
         asg = [s for s in ast.walk(f) if isinstance(s, ast.Assign) and norm(s.targets[0]) == 'top.sim_eval_combinational']
@@ -209,6 +209,8 @@ MUTANTS = [
 ]
 
 EQUIV = [
+    _m('evalcomb-schedule-local', PREP, "      sim_eval_combinational = SimpleTickPass.gen_tick_function( [top._sim.check_top_level_inports] + top._sched.update_schedule )",
+       "      comb_schedule = [top._sim.check_top_level_inports] + top._sched.update_schedule\n      sim_eval_combinational = SimpleTickPass.gen_tick_function( comb_schedule )"),
     _m('default-tracers-swapped', PG, "    VcdGenerationPass()( top )\n    PrintTextWavePass()( top )\n\n    PrepareSimPass(print_line_trace=s.linetrace,", "    PrintTextWavePass()( top )\n    VcdGenerationPass()( top )\n\n    PrepareSimPass(print_line_trace=s.linetrace,"),
     _m('simple-linetrace-later', PG, "    LineTraceParamPass()( top )\n    GenDAGPass()( top )\n    WrapGreenletPass()( top )\n    SimpleSchedulePass()( top )", "    GenDAGPass()( top )\n    LineTraceParamPass()( top )\n    WrapGreenletPass()( top )\n    SimpleSchedulePass()( top )"),
     _m('evalcomb-check-last', PREP, "[top._sim.check_top_level_inports] + top._sched.update_schedule )", "top._sched.update_schedule + [top._sim.check_top_level_inports] )"),
